@@ -2115,6 +2115,13 @@ func buildRequestBodyType(body, att *expr.AttributeExpr, e *expr.HTTPEndpointExp
 				// Body("name") with an inline object: the Go type name
 				// is the struct definition.
 				name = fmt.Sprintf("New%sRequestBody", codegen.Goify(e.Name(), true))
+			} else if _, ok := body.Meta["origin:attribute"]; ok && (expr.IsArray(body.Type) || expr.IsMap(body.Type)) {
+				// Body("name") with an array or a map: the Go type name is
+				// derived from the element types, two endpoints may use
+				// different attributes of the same type.
+				if _, ok := body.Type.(expr.UserType); !ok {
+					name = fmt.Sprintf("New%sRequestBody", codegen.Goify(e.Name(), true))
+				}
 			}
 			desc = fmt.Sprintf("%s builds the HTTP request body from the payload of the %q endpoint of the %q service.",
 				name, e.Name(), svc.Name)
